@@ -48,7 +48,10 @@ def gen_history(rng, B=None, ops_len=None):
     if rng.random() < 0.3: ops.append({'op': 'stalequery'})                 # ... and through a handle made before the sow
     L = ops_len or rng.randint(2, 10)
     locs = list(itertools.product(*(range(len(sw['values'][a])) for a in sweeps.fn_args(crops.sorted_sweep(sw)))))
-    if sw['rows'] is not None: locs = [tuple(r) for r in sw['rows']]
+    if sw['rows'] is not None:
+        ss = crops.sorted_sweep(sw)
+        sub = list(itertools.product(*(range(len(sw['values'][a])) for a in ss['combo_args'])))
+        locs = [tuple(r) + tuple(c) for r in sw['rows'] for c in sub]
     for _ in range(L):
         r = rng.random()
         if r < 0.25: ops.append({'op': 'grow', 'ids': [rng.randint(1, B)], 'via': rng.choice(['crop', 'fn', 'crop_int'])})
